@@ -1,0 +1,9 @@
+//go:build verif
+
+// Machine-checked contracts for package database (comment-only).
+package database
+
+//@ func (*Config).GetPassword
+//@   requires[C10] c != nil
+//@   inline
+//@   nopanic[C10]
